@@ -363,44 +363,64 @@ func ruleSignedInts(w *core.World, r *core.Report) {
 			}
 		}
 		seen := map[string]bool{}
-		for _, s := range core.SitesNamed(f, false, "strconv.FormatInt") {
-			// which encoding? the dominating `firstByte == K` fact
-			enc := ""
-			for _, fct := range core.FactsAt(s.Instr.Block()) {
-				if c, ok := core.AsCmp(fct.Cond, fct.Val); ok && c.Op == token.EQL {
-					if k, ok := core.ConstInt(c.Y); ok && byVal[k] != "" {
-						enc = byVal[k]
-					}
+		// per encoding: the bytes read under `encoding == K` are first converted to the signed type of
+		// that width (24 bit: shifted up, converted to int32, shifted down), whatever is done with the
+		// value afterwards (formatted at once, or returned as int64 by a helper and formatted by the caller)
+		for _, g := range append([]*ssa.Function{f}, core.ExpandedCallees(f)...) {
+			for _, in := range core.OwnInstrs(g) {
+				call, ok := in.(*ssa.Call)
+				if !ok {
+					continue
 				}
-			}
-			if enc == "" {
-				continue // the 4-bit immediate
-			}
-			seen[enc] = true
-			v := s.Args()[0]
-			okW := false
-			switch want[enc] {
-			case "int64":
-				okW = true
-			case "int24":
-				// sign-extension idiom: int32(x << 8) >> 8
-				if cv, ok := v.(*ssa.Convert); ok {
-					if shr, ok := cv.X.(*ssa.BinOp); ok && shr.Op == token.SHR && isConstInt(8)(shr.Y) && shr.X.Type().String() == "int32" {
-						if c2, ok := shr.X.(*ssa.Convert); ok {
-							if shl, ok := c2.X.(*ssa.BinOp); ok && shl.Op == token.SHL && isConstInt(8)(shl.Y) {
-								okW = true
-							}
+				m := core.ResolveCall(call).Name
+				if !strings.Contains(m, "SliceBuffer).Read") {
+					continue
+				}
+				enc := ""
+				for _, fct := range core.FactsAt(call.Block()) {
+					if c, ok := core.FactCmp(fct); ok && c.Op == token.EQL {
+						if k, ok := core.ConstInt(c.Y); ok && byVal[k] != "" {
+							enc = byVal[k]
 						}
 					}
 				}
-			default:
-				if cv, ok := v.(*ssa.Convert); ok && cv.X.Type().String() == want[enc] {
-					if c2, ok := cv.X.(*ssa.Convert); ok && isUnsigned(c2.X.Type()) {
-						okW = true
+				if enc == "" {
+					continue // length bytes of a string, the 4-bit immediate
+				}
+				seen[enc] = true
+				okW := true
+				uses := 0
+				for _, ref := range *call.Referrers() {
+					if _, isDbg := ref.(*ssa.DebugRef); isDbg {
+						continue
+					}
+					uses++
+					good := false
+					switch want[enc] {
+					case "int24":
+						// sign-extension idiom: int32(x << 8) >> 8
+						if shl, ok := ref.(*ssa.BinOp); ok && shl.Op == token.SHL && isConstInt(8)(shl.Y) {
+							for _, r2 := range *shl.Referrers() {
+								if cv, ok := r2.(*ssa.Convert); ok && cv.Type().String() == "int32" {
+									for _, r3 := range *cv.Referrers() {
+										if shr, ok := r3.(*ssa.BinOp); ok && shr.Op == token.SHR && isConstInt(8)(shr.Y) && shr.X == ssa.Value(cv) {
+											good = true
+										}
+									}
+								}
+							}
+						}
+					default:
+						if cv, ok := ref.(*ssa.Convert); ok && cv.Type().String() == want[enc] && isUnsigned(call.Type()) {
+							good = true
+						}
+					}
+					if !good {
+						okW = false
 					}
 				}
+				r.Check(okW && uses > 0, "ReadZiplistEntry2/"+enc, call.Pos(), "a %s ziplist integer must be widened through a signed %s (negative values otherwise decode as large positive ones)", enc, want[enc])
 			}
-			r.Check(okW, "ReadZiplistEntry2/"+enc, s.Pos(), "a %s ziplist integer must be widened through a signed %s (negative values otherwise decode as large positive ones)", enc, want[enc])
 		}
 		for n := range want {
 			if !seen[n] {
@@ -478,7 +498,7 @@ func ruleSignedInts(w *core.World, r *core.Report) {
 				}
 				pred := ph.Block().Preds[i]
 				for _, fct := range core.FactsAt(pred) {
-					cmp, ok := core.AsCmp(fct.Cond, fct.Val)
+					cmp, ok := core.FactCmp(fct)
 					if !ok || cmp.Op != token.EQL {
 						continue
 					}
@@ -579,7 +599,7 @@ func ruleExpiryPaths(w *core.World, r *core.Report) {
 		noExpiry := false
 		hasExpiry := false
 		for _, fct := range p.Conds {
-			c, ok := core.AsCmp(fct.Cond, fct.Val)
+			c, ok := core.FactCmp(fct)
 			if ok && isExpire(p.Resolve(c.X)) && isConstInt(0)(c.Y) {
 				if c.Op == token.EQL {
 					noExpiry = true
@@ -670,7 +690,7 @@ func ruleExpiryPaths(w *core.World, r *core.Report) {
 					continue
 				}
 				for _, fct := range core.FactsAt(ph.Block().Preds[i]) {
-					if c, ok := core.AsCmp(fct.Cond, fct.Val); ok && (c.Op == token.GEQ || c.Op == token.LEQ || c.Op == token.GTR || c.Op == token.LSS) {
+					if c, ok := core.FactCmp(fct); ok && (c.Op == token.GEQ || c.Op == token.LEQ || c.Op == token.GTR || c.Op == token.LSS) {
 						one = true
 					}
 				}
@@ -865,7 +885,7 @@ func ruleListpackStep(w *core.World, r *core.Report) {
 			}
 			lo, hi := uint64(0), uint64(1)<<32-1
 			for _, fct := range pt.Conds {
-				c, ok := core.AsCmp(fct.Cond, fct.Val)
+				c, ok := core.FactCmp(fct)
 				if !ok || core.Unwrap(c.X) != ssa.Value(p) {
 					undec = "a branch of the back-length function is not a comparison of its argument with a constant"
 					return
@@ -946,7 +966,7 @@ func ruleListpackStep(w *core.World, r *core.Report) {
 			facts := core.FactsAt(s.Instr.Block())
 			for i := len(facts) - 1; i >= 0 && !found; i-- {
 				fct := facts[i]
-				cmp, ok := core.AsCmp(fct.Cond, fct.Val)
+				cmp, ok := core.FactCmp(fct)
 				if !ok || cmp.Op != token.EQL {
 					continue
 				}
